@@ -36,6 +36,9 @@ CHECKS = {
  "C08": ("fault_enumeration", "pre-send assertion on the live session (store-before-send), model of sent-and-unacknowledged packets driven by broker-side sends and the broker's received-packet report compared with the session store at connection ends, retransmission/DUP check after resume, no-second-non-duplicate check, end-to-end no-loss check, session-present model",
          "90 (quick) / 1200 (thorough) base scenarios (window 1-3, 1..window+2 messages QoS 1/2, offline messages, subscriber behaviour vectors over ack/withhold/drop on first and resumed connection, clean/unclean second connect) x every single fault position on each subscriber connection (all positions for a third of the scenarios in quick)",
          "workloads stay inside SessionQueueSize; the amount delivered before a loss depends on scheduling (the model is event-driven, so this only varies coverage)", "2-C08"),
+ "C16": ("exploration", "online inflight counter at the scripted subscriber (never above the window, retransmissions included), two-queue marker drain check, token conservation at quiescence through the VerifTokens hook",
+         "1200 (quick) / 20000 (thorough) streams: windows 1-10, 1..20 x window messages, QoS mixes incl. pure QoS 0, batched / reversed / half-way QoS 2 acknowledgement policies, drop+resume at a PRNG point",
+         "the subscriber only acknowledges what it received and releases withheld acknowledgements when its window is full; hook commit adds broker/verif_hooks.go behind the verif tag", "2-C16"),
 }
 NOT_APPLICABLE = {}
 def main():
@@ -70,5 +73,5 @@ def main():
         "notes": "All checks decide by observing executions of the real code (runtime monitoring). known_findings.json lists recorded and fixed defects. seeded/ holds independently produced breaking changes and which checks catch them.",
     }
     json.dump(m, open(os.path.join(ROOT, "MANIFEST.json"), "w"), indent=1)
-HOOK_COMMITS = []
+HOOK_COMMITS = ["39657f1"]
 main()
